@@ -704,7 +704,11 @@ func (messagesMapper) Save(msg *types.Message, attachmentURLs []string, readBySe
 			}
 		}
 		if len(attachments) > 0 {
-			return adp.FileLinkAttachments("", types.ZeroUid, msg.Uid(), attachments), markedReadBySender
+			// The message is already saved and its SeqId is consumed: failing the whole Save here would make
+			// the topic believe the publish did not happen and reuse the same SeqId for the next message.
+			if err = adp.FileLinkAttachments("", types.ZeroUid, msg.Uid(), attachments); err != nil {
+				logs.Warn.Printf("topic[%s]: failed to link attachments to message (seq: %d) - err: %+v", msg.Topic, msg.SeqId, err)
+			}
 		}
 	}
 
